@@ -199,15 +199,28 @@ def decode(ctx, p):
     owner = {sq['SQ_E1']: pe['W_KING'], sq['SQ_E8']: pe['B_KING']}
     bad = None
     rows = 0
+    from rules.cases import effects_under as _eud
     try:
         for o in origins:
             for t in targets:
+              for side_ in (0, 1):
                 for pc in pieces:
-                    val = {'from(move)': o, 'to(move)': t, 'position.piece_at(from(move))': pc, 'position.piece_at(%d)' % o: pc}
+                    if pc != pe['NO_PIECE'] and (pc >= pe['B_PAWN']) != bool(side_):
+                        continue        # a book move is made by a piece of the side to move
+                    val = {'from(move)': o, 'to(move)': t, 'position.piece_at(from(move))': pc, 'position.piece_at(%d)' % o: pc,
+                           'position.color()': side_, 'rank(from(move))': o // 8, 'file(from(move))': o % 8,
+                           'rank(to(move))': t // 8, 'file(to(move))': t % 8}
                     nm = Norm(f)
                     nm.val = val
-                    r = decision(f, val, nm)
-                    got = nm.s(kids(r)[0]) if r is not None else None
+                    try:
+                        r = decision(f, val, nm)
+                        got = nm.s(kids(r)[0]) if r is not None else None
+                    except Unknown:
+                        # a switch or another statement form: the effects of the body under the same valuation
+                        eff = [e_ for e_ in _eud(f, kids(f.body), val) if e_.startswith('return ')]
+                        if len(eff) != 1:
+                            raise Unknown('the control flow of decode_move')
+                        got = eff[0][len('return '):]
                     want = 'move'
                     if o in owner and pc == owner[o]:
                         if t in king_side[o]:
